@@ -64,7 +64,14 @@ func WorldScripted() *harness.World {
 }
 
 // PropID is the one proposal of the search.
-var PropID = gov.PID("c14")
+var PropID = func() governance.ProposalID {
+	id := gov.PID("c14")
+	if os.Getenv("VERIF_C14_ID") == "underscore" {
+		// an id the creator is free to choose: 64 characters, one of them the separator of the stores' keys
+		id = id[:10] + "_" + id[11:]
+	}
+	return id
+}()
 
 // ---------------------------------------------------------------------------------------------
 // Operations and events
